@@ -152,19 +152,23 @@ DISCR = ('#d',)
 
 
 class State:
-  __slots__ = ('m', 'ref', 'cmp', 'guards')
+  __slots__ = ('m', 'ref', 'cmp', 'guards', '_fz')
 
   def __init__(self, m=None, ref=None, cmp=None, guards=()):
     self.m = m if m is not None else {}
     self.ref = ref if ref is not None else {}
     self.cmp = cmp if cmp is not None else {}
     self.guards = guards
+    self._fz = None
 
   def copy(self):
     return State(dict(self.m), dict(self.ref), dict(self.cmp), self.guards)
 
   def frozen(self):
-    return (frozenset(self.m.items()), frozenset(self.ref.items()), frozenset(self.cmp.items()), self.guards)
+    # states are never mutated once they sit in an in/out list (the transfer works on copies), so the key is computed once
+    if self._fz is None:
+      self._fz = (frozenset(self.m.items()), frozenset(self.ref.items()), frozenset(self.cmp.items()), self.guards)
+    return self._fz
 
   # ---------------------------------------------------------------- places
   def resolve(self, key):
